@@ -1,8 +1,9 @@
 (* C08 proofs: the three implementation models refine the abstract view. *)
 From Coq Require Import ZArith NArith List Bool Lia Permutation Sorted.
 From FV Require Import Common.ListX Common.Bytes.
-From FV Require Import gen.Gen_federated_data gen.Gen_in_memory_federated_data gen.Gen_sqlite_federated_data.
+From FV Require Import gen.Gen_client_datasets_pre gen.Gen_federated_data gen.Gen_in_memory_federated_data gen.Gen_sqlite_federated_data.
 From FV Require Import Model.C08_Model.
+From FV Require Model.C15_Model Proofs.C15_Proofs.
 Import ListNotations.
 Local Open Scope Z_scope.
 
@@ -33,13 +34,54 @@ Proof.
   - symmetry. apply filter_true.
 Qed.
 
-Lemma subset_slice_spec ids s e :
-  subset_slice_ids ids s e = Some (filter (in_range (s, e)) ids).
+Lemma subset_slice_spec {Base} (b : Base) ids s e :
+  subset_slice b ids s e = Some (b, filter (in_range (s, e)) ids).
 Proof.
-  destruct s as [s|], e as [e|]; cbn; f_equal.
+  destruct s as [s|], e as [e|]; cbn; f_equal; f_equal.
   - apply filter_ext. intros i. unfold in_range; cbn. now rewrite andb_true_r.
   - symmetry. apply filter_true.
 Qed.
+
+(* the preprocessor chains: append adds at the end, __call__ folds from the left *)
+Lemma client_append_spec {F} (fns : list F) fn : client_preprocessor_append fns fn = fns ++ [fn].
+Proof. reflexivity. Qed.
+
+Lemma batch_append_spec {G} (fns : list G) fn : batch_preprocessor_append fns fn = fns ++ [fn].
+Proof. reflexivity. Qed.
+
+Lemma run_c_fold i fs r : run_c i fs r = fold_left (fun acc f => app_c i f acc) fs r.
+Proof. unfold run_c, client_preprocessor_call. destruct fs; reflexivity. Qed.
+
+Lemma run_b_fold gs r : run_b gs r = fold_left (fun acc g => app_b g acc) gs r.
+Proof. unfold run_b, batch_preprocessor_call. destruct gs; reflexivity. Qed.
+
+Lemma observe_spec d : observe d = (fst d, run_b (snd d) (fst d)).
+Proof. reflexivity. Qed.
+
+Lemma mem_client_dataset_spec cs bs i r :
+  in_memory_client_dataset applyc cs bs i r = Some (client_dataset i cs bs r).
+Proof. reflexivity. Qed.
+
+Lemma sql_client_dataset_spec cs bs i r :
+  sqlite_client_dataset applyc cs bs i r = Some (client_dataset i cs bs r).
+Proof. reflexivity. Qed.
+
+Lemma sqlite_slice_spec (cs : list cfn) (bs : list bfn) st sp s e :
+  sqlite_slice st sp cs bs s e = Some (omax st s, omin sp e, cs, bs).
+Proof. unfold sqlite_slice. now rewrite intersect_spec. Qed.
+
+Lemma subset_init_spec have ids :
+  subset_init have ids true = if forallb (fun i => bmem i have) (bdedup ids) then Some (bdedup ids) else None.
+Proof.
+  unfold subset_init. induction (bdedup ids) as [|i l IH]; cbn; [reflexivity|].
+  destruct (bmem i have); cbn; [|reflexivity].
+  destruct (filter (fun i0 => negb (bmem i0 have)) l) eqn:E; cbn in *.
+  - destruct (forallb (fun i0 => bmem i0 have) l); [reflexivity|discriminate].
+  - destruct (forallb (fun i0 => bmem i0 have) l); [discriminate|reflexivity].
+Qed.
+
+Lemma gets_items_pair (get : id -> res dataset) req : gets_items (fun i => (i, get i)) req = gets get req.
+Proof. induction req as [|i req IH]; cbn; [reflexivity|]. rewrite IH. reflexivity. Qed.
 
 Lemma range_where_spec st sp i : sqlite_range_where st sp i = Some (in_range (st, sp) i).
 Proof. destruct st, sp; cbn; unfold in_range; cbn; rewrite ?andb_true_r; reflexivity. Qed.
@@ -249,7 +291,8 @@ Proof.
   - destruct W as [NT I]. rewrite (bassoc_sub tbl ds i ND NT I). destruct (bmem i (map fst tbl)); reflexivity.
   - subst. rewrite get_client_in_range_spec. destruct (in_range (st, sp) i); rewrite ?andb_true_r, ?andb_false_r; [|reflexivity].
     destruct (bmem i keys) eqn:E; [reflexivity|]. now rewrite bassoc_mem_false.
-  - destruct W as [Wb [_ Hs]]. destruct (bmem i ids) eqn:E; [|reflexivity].
+  - destruct W as [Wb [_ Hs]]. unfold subset_get_client_raises, subset_client_size_raises.
+    destruct (bmem i ids) eqn:E; cbn [negb]; [|reflexivity].
     rewrite IH by assumption. rewrite Hs by now apply bmem_In. reflexivity.
 Qed.
 
@@ -261,7 +304,8 @@ Proof.
   - destruct W as [NT I]. rewrite (bassoc_sub tbl ds i ND NT I). destruct (bmem i (map fst tbl)); reflexivity.
   - subst. rewrite client_size_in_range_spec. destruct (in_range (st, sp) i); rewrite ?andb_true_r, ?andb_false_r; [|reflexivity].
     destruct (bmem i keys) eqn:E; [reflexivity|]. now rewrite bassoc_mem_false.
-  - destruct W as [Wb [_ Hs]]. destruct (bmem i ids) eqn:E; [|reflexivity].
+  - destruct W as [Wb [_ Hs]]. unfold subset_get_client_raises, subset_client_size_raises.
+    destruct (bmem i ids) eqn:E; cbn [negb]; [|reflexivity].
     rewrite IH by assumption. rewrite Hs by now apply bmem_In. reflexivity.
 Qed.
 
@@ -289,7 +333,8 @@ Proof.
   intros NC. induction req as [|i req IH]; [reflexivity|].
   cbn [gets]. destruct (get i) as [dd| |] eqn:G.
   - destruct (gets get req) as [l e] eqn:E. cbn [fst snd sub_filter] in *.
-    destruct (bmem i ids) eqn:B; [|reflexivity]. rewrite IH.
+    unfold subset_get_clients_raises, subset_get_clients_item.
+    destruct (bmem i ids) eqn:B; cbn [negb]; [|reflexivity]. rewrite IH.
     destruct (gets (fun i0 => if bmem i0 ids then get i0 else KeyErr) req); reflexivity.
   - cbn [fst snd sub_filter]. destruct (bmem i ids); reflexivity.
   - exfalso. now apply (NC i).
@@ -297,10 +342,12 @@ Qed.
 
 Lemma fd_gets_char d req : wf ds d -> fd_gets d req = gets (fd_get d) req.
 Proof.
-  revert req. induction d as [tbl cs bs|tbl st sp cs bs|b IH ids]; intros req W; [reflexivity|reflexivity|].
+  revert req. induction d as [tbl cs bs|tbl st sp cs bs|b IH ids]; intros req W;
+    [apply (gets_items_pair (fd_get (Mem tbl cs bs)))|apply (gets_items_pair (fd_get (Sql tbl st sp cs bs)))|].
   cbn [fd_gets]. destruct W as [Wb [Hn Hs]]. rewrite IH by assumption.
   pose proof (sub_filter_gets (fd_get b) ids req (fun i => fd_get_no_crash b i Wb)) as H.
-  destruct (gets (fd_get b) req) as [l e]. exact H.
+  destruct (gets (fd_get b) req) as [l e]. cbn [fst snd] in H. rewrite H. apply gets_ext.
+  intros i. cbn [fd_get]. unfold subset_get_client_raises. destruct (bmem i ids); reflexivity.
 Qed.
 
 (* the ids of a view: every enumeration sorts to the sorted visible keys *)
@@ -332,7 +379,8 @@ Lemma fd_num_char d : wf ds d -> fd_num d = Val (Z.of_nat (length (view_ids d)))
 Proof.
   intros W. destruct (fd_ids_char d W) as [o [E S]]. unfold view_ids in *.
   rewrite bsort_length. apply bsort_eq_length in S.
-  destruct d as [tbl cs bs|tbl st sp cs bs|b ids]; cbn [fd_num fd_ids] in *.
+  destruct d as [tbl cs bs|tbl st sp cs bs|b ids]; cbn [fd_num fd_ids] in *;
+    unfold in_memory_num_clients, in_memory_client_ids, subset_num_clients, subset_client_ids in *.
   - injection E as <-. rewrite <- S. unfold mem_ids. now rewrite !bsort_length.
   - subst. rewrite sql_select_spec in *. injection E as <-. rewrite <- S. now rewrite map_length.
   - injection E as <-. rewrite <- S. now rewrite bsort_length.
@@ -358,7 +406,8 @@ Proof.
     cbn [fst snd]. now rewrite (bassoc_NoDup_In k v ds ND Hin).
   - destruct W as [Wb [Hn Hs]]. destruct (IH Wb) as [ob [E S]]. rewrite E.
     exists (filter (fun i => bmem i ids) ob). split.
-    + f_equal. clear. induction ob as [|x ob IH]; cbn; [reflexivity|]. destruct (bmem x ids); cbn; now rewrite IH.
+    + f_equal. clear. unfold subset_client_sizes_keeps.
+      induction ob as [|x ob IH]; cbn; [reflexivity|]. destruct (bmem x ids); cbn; now rewrite IH.
     + rewrite bsort_filter, S, <- bsort_filter, filter_filter. f_equal. apply filter_ext_in.
       intros i _. change (vis (Sub b ids) i) with (bmem i ids).
       destruct (bmem i ids) eqn:B; [|now rewrite andb_false_r].
@@ -374,6 +423,7 @@ Proof.
     rewrite fd_gets_char by assumption. apply gets_all. intros i Hi. apply fd_get_vis; [assumption|].
     cbn [vis]. unfold mem_ids in Hi. apply (proj1 (bsort_In _ _)) in Hi. now apply bmem_In.
   - cbn [wf] in W. subst tbl. rewrite sql_select_spec in *. injection E as <-. eexists; split; [|exact S].
+    rewrite (omap_all _ (fun kv => (fst kv, client_dataset (fst kv) cs bs (snd kv)))) by reflexivity.
     f_equal. rewrite map_map. apply map_ext_in. intros [k v] Hin. apply filter_In in Hin. destruct Hin as [Hin _].
     unfold content. cbn [fst snd chain_c chain_b]. now rewrite (bassoc_NoDup_In k v ds ND Hin).
   - injection E as <-. rewrite bsort_idem in S. exists (bsort ids). split; [|now rewrite bsort_idem].
@@ -391,14 +441,14 @@ Proof.
   - destruct W as [NT I]. rewrite in_memory_slice_spec.
     destruct (restrict_spec tbl (filter (in_range (s, e)) (mem_ids tbl))) as [t [E [M It]]].
     { intros i Hi. apply filter_In in Hi. destruct Hi as [Hi _]. unfold mem_ids in Hi. now apply (proj1 (bsort_In _ _)) in Hi. }
-    rewrite E. exists (Mem t cs bs). cbn [wf vis chain_c chain_b]. repeat split; auto.
+    unfold in_memory_slice_ctor. rewrite E. exists (Mem t cs bs). cbn [wf vis chain_c chain_b]. repeat split; auto.
     + rewrite M. apply NoDup_filter. unfold mem_ids. now apply bsort_NoDup.
     + intros x Hx. apply I, It, Hx.
     + intros i. rewrite M, bmem_filter. unfold mem_ids. now rewrite bmem_bsort.
-  - subst. rewrite intersect_spec. eexists. split; [reflexivity|]. cbn [wf vis chain_c chain_b]. repeat split.
+  - subst. rewrite sqlite_slice_spec. eexists. split; [reflexivity|]. cbn [wf vis chain_c chain_b]. repeat split.
     intros i. rewrite in_range_intersect. now rewrite andb_assoc.
   - destruct W as [Wb [Hn Hs]]. destruct (IH Wb) as [b' [E [Wb' [Hv [Hc Hb]]]]].
-    rewrite subset_slice_spec, E. eexists. split; [reflexivity|]. cbn [wf vis chain_c chain_b]. repeat split; auto.
+    rewrite E, subset_slice_spec. eexists. split; [reflexivity|]. cbn [wf vis chain_c chain_b]. repeat split; auto.
     + now apply NoDup_filter.
     + intros i Hi. apply filter_In in Hi. destruct Hi as [Hi Hr]. rewrite Hv, Hs, Hr by assumption. reflexivity.
     + intros i. apply bmem_filter.
@@ -408,7 +458,9 @@ Lemma fd_pre_client_char d f : wf ds d ->
   wf ds (fd_pre_client d f) /\ (forall i, vis (fd_pre_client d f) i = vis d i) /\
   chain_c (fd_pre_client d f) = chain_c d ++ [f] /\ chain_b (fd_pre_client d f) = chain_b d.
 Proof.
-  induction d as [tbl cs bs|tbl st sp cs bs|b IH ids]; cbn [fd_pre_client vis wf chain_c chain_b]; intros W.
+  induction d as [tbl cs bs|tbl st sp cs bs|b IH ids];
+    cbn [fd_pre_client vis wf chain_c chain_b in_memory_preprocess_client sqlite_preprocess_client
+         subset_preprocess_client client_preprocessor_append]; intros W.
   - repeat split; tauto.
   - repeat split; tauto.
   - destruct W as [Wb [Hn Hs]]. destruct (IH Wb) as [W' [Hv [Hc Hb]]]. repeat split; auto.
@@ -419,7 +471,9 @@ Lemma fd_pre_batch_char d g : wf ds d ->
   wf ds (fd_pre_batch d g) /\ (forall i, vis (fd_pre_batch d g) i = vis d i) /\
   chain_c (fd_pre_batch d g) = chain_c d /\ chain_b (fd_pre_batch d g) = chain_b d ++ [g].
 Proof.
-  induction d as [tbl cs bs|tbl st sp cs bs|b IH ids]; cbn [fd_pre_batch vis wf chain_c chain_b]; intros W.
+  induction d as [tbl cs bs|tbl st sp cs bs|b IH ids];
+    cbn [fd_pre_batch vis wf chain_c chain_b in_memory_preprocess_batch sqlite_preprocess_batch
+         subset_preprocess_batch batch_preprocessor_append]; intros W.
   - repeat split; tauto.
   - repeat split; tauto.
   - destruct W as [Wb [Hn Hs]]. destruct (IH Wb) as [W' [Hv [Hc Hb]]]. repeat split; auto.
@@ -432,7 +486,7 @@ Lemma fd_subset_char d ids : wf ds d ->
                   chain_c d' = chain_c d /\ chain_b d' = chain_b d
   else fd_subset d ids = None.
 Proof.
-  intros W. unfold fd_subset. destruct (fd_ids_char d W) as [o [E S]]. rewrite E.
+  intros W. unfold fd_subset. destruct (fd_ids_char d W) as [o [E S]]. rewrite E, subset_init_spec.
   assert (H : forallb (fun i => bmem i o) (bdedup ids) = forallb (vis d) ids).
   { rewrite forallb_bdedup. destruct (forallb (vis d) ids) eqn:F.
     - rewrite forallb_forall in *. intros i Hi. apply bmem_In. apply (fd_ids_In d o i W E). split; [now apply F|].
@@ -798,10 +852,10 @@ Proof.
 Qed.
 
 Lemma run_c_snoc i cs f r : run_c i (cs ++ [f]) r = app_c i f (run_c i cs r).
-Proof. unfold run_c. now rewrite fold_left_app. Qed.
+Proof. rewrite !run_c_fold. now rewrite fold_left_app. Qed.
 
 Lemma run_b_snoc bs g r : run_b (bs ++ [g]) r = app_b g (run_b bs r).
-Proof. unfold run_b. now rewrite fold_left_app. Qed.
+Proof. rewrite !run_b_fold. now rewrite fold_left_app. Qed.
 
 Theorem preprocess_order : forall p ops,
   exists d fl o, impl_run p ds ops = Some (d, fl) /\ fd_ids d = Val o /\
@@ -913,7 +967,8 @@ Proof.
   assert (L : forall i, bassoc i tbl = bassoc i tbl') by (intros i; now apply bassoc_perm).
   assert (G : forall i, fd_get (Mem tbl cs bs) i = fd_get (Mem tbl' cs bs) i) by (intros i; cbn [fd_get]; now rewrite L).
   assert (GS : forall req, fd_gets (Mem tbl cs bs) req = fd_gets (Mem tbl' cs bs) req).
-  { intros req. cbn [fd_gets]. now apply gets_ext. }
+  { intros req. cbn [fd_gets].
+    rewrite (gets_items_pair (fd_get (Mem tbl cs bs))), (gets_items_pair (fd_get (Mem tbl' cs bs))). now apply gets_ext. }
   repeat split.
   - cbn [fd_num]. now rewrite M.
   - cbn [fd_ids]. now rewrite M.
@@ -925,7 +980,63 @@ Proof.
   - apply G.
   - apply GS.
   - intros s e. cbn [fd_slice]. rewrite M. destruct (in_memory_slice_ids (mem_ids tbl') s e) as [ids|]; [|reflexivity].
-    unfold restrict.
+    unfold in_memory_slice_ctor, brestrict.
     rewrite (omap_ext _ (fun i => match bassoc i tbl' with Some r => Some (i, r) | None => None end));
       [reflexivity|]. intros i. now rewrite L.
+Qed.
+
+(* ------------------------------------------------------------------ *)
+(* a shuffled pass visits every client of the view exactly once        *)
+
+Section Shuffle.
+Variable ds : table.
+Hypothesis ND : NoDup (map fst ds).
+
+Theorem shuffled_pass_visits_each_once : forall p ops B code draws, 1 <= B ->
+  Forall (fun dd => - B <= dd) draws ->
+  exists d fl out, impl_run p ds ops = Some (d, fl) /\
+    fd_shuffled_pass d B code draws = Some out /\
+    Permutation out (spec_clients ds (fst (spec_run ds view0 ops))).
+Proof.
+  intros p ops B code draws HB HD.
+  destruct (impl_run_state ds ND p ops) as [d [fl [o [E [Ei [Eo HR]]]]]].
+  assert (W : wf ds d) by apply HR.
+  destruct (fd_clients_char ds ND d W) as [oc [Ec Sc]].
+  assert (PC : Permutation (map (fun i => (i, content ds d i)) oc) (spec_clients ds (fst (spec_run ds view0 ops)))).
+  { unfold spec_clients. rewrite <- (view_ids_spec ds d _ HR), <- Sc.
+    rewrite (map_ext (fun i => (i, spec_dataset_of ds (fst (spec_run ds view0 ops)) i)) (fun i => (i, content ds d i)))
+      by (intros i; now rewrite (content_spec ds d _ i HR)).
+    apply Permutation_map, bsort_perm. }
+  assert (Generic : forall l, fd_clients d = (l, Done) ->
+            exists out, match C15_Model.buffered_shuffle B code draws l false with
+                        | C15_Model.SOk out' => Some out' | _ => None end = Some out /\ Permutation l out).
+  { intros l _. destruct (C15_Proofs.buffered_shuffle_perm B code draws l HB HD) as [out [Es P]]. rewrite Es. now exists out. }
+  destruct d as [tbl cs bs|tbl st sp cs bs|b ids].
+  - destruct (Generic _ Ec) as [out [Eo' P]]. exists (Mem tbl cs bs), fl, out. split; [exact E|].
+    split; [unfold fd_shuffled_pass; rewrite Ec; exact Eo'|]. now rewrite <- P.
+  - exists (Sql tbl st sp cs bs), fl. cbn [wf] in W. subst tbl. unfold fd_shuffled_pass.
+    cbn [fd_clients] in Ec. rewrite sql_select_spec in *.
+    set (rows := filter (fun kv => in_range (st, sp) (fst kv)) ds) in *.
+    set (h := fun kv : bytes * list Z => (fst kv, client_dataset (fst kv) cs bs (snd kv))).
+    rewrite (omap_all _ h) in Ec by reflexivity. injection Ec as Ec.
+    destruct (C15_Proofs.buffered_shuffle_perm B code draws rows HB HD) as [out [Es P]]. rewrite Es.
+    exists (map h out). split; [exact E|]. split; [now apply omap_all|].
+    rewrite <- PC, <- Ec. apply Permutation_map. now symmetry.
+  - destruct (Generic _ Ec) as [out [Eo' P]]. exists (Sub b ids), fl, out. split; [exact E|].
+    split; [unfold fd_shuffled_pass; rewrite Ec; exact Eo'|]. now rewrite <- P.
+Qed.
+End Shuffle.
+
+(* the translated preprocessor classes: append adds at the END, __call__ applies from the left *)
+Theorem translated_chains : forall {F G E : Type} (applyc : F -> bytes -> E -> E) (applyb : G -> E -> E),
+  (forall (fns : list F) fn, client_preprocessor_append fns fn = fns ++ [fn]) /\
+  (forall (fns : list G) fn, batch_preprocessor_append fns fn = fns ++ [fn]) /\
+  (forall fns i ex, client_preprocessor_call applyc fns i ex = fold_left (fun out f => applyc f i out) fns ex) /\
+  (forall fns ex, batch_preprocessor_call applyb fns ex = fold_left (fun out f => applyb f out) fns ex) /\
+  (forall raw pre, client_dataset_all_examples applyb raw pre = fold_left (fun out f => applyb f out) pre raw).
+Proof.
+  intros F G E applyc applyb. repeat split.
+  - intros fns i ex. unfold client_preprocessor_call. destruct fns; reflexivity.
+  - intros fns ex. unfold batch_preprocessor_call. destruct fns; reflexivity.
+  - intros raw pre. unfold client_dataset_all_examples, batch_preprocessor_call. destruct pre; reflexivity.
 Qed.
